@@ -185,6 +185,7 @@ def obligations(ctx):
                     ob.violation("sources %s: hashed datum list %s differs from the emitted one %s" % (srcs, hashed, emitted))
         ob.finish(E)
     dedup_notions(ctx)
+    preimage_layout(ctx)
 
 
 def dedup_notions(ctx):
@@ -235,3 +236,58 @@ def dedup_notions(ctx):
                 ob.vc("%d datums: the hash side keeps elements %s, the emission side %s — for the same list" % (n, ka, kb), pa + pb, z3.BoolVal(False))
     ob.cross_every = 8
     ob.finish(agg, lambda m, info=None: ("e2n_c09_battery", []))
+
+
+def preimage_layout(ctx):
+    """hash_script_data hashes [ redeemers | datums | language views ], with the ledger's special case for datums without
+    redeemers [ A0 | datums | A0 ]: the buffer handed to blake2b256 is exactly that sequence (component encodings opaque)."""
+    P = ctx.P
+    ob = Obligation(ctx, "c09_e2_script_data_preimage_layout", "redeemer count 0 / positive, datums present / absent; component encodings uninterpreted", ["hash_script_data"], fallback_native="e2n_c09_battery")
+    E = Engine(P, max_loop=4)
+    nred = E.sym_int("redeemer_count", "usize")
+    U = E.U
+    enc = lambda nm: (lambda E_, c, a: VOpaque(nm, [], z3.Function(nm, U, U)(E_.as_u(VM.deref(E_, a[0])))))
+    E.extra_intrinsics[r"Redeemers::len$"] = lambda E_, c, a: VInt(nred.t, "usize")
+    E.extra_intrinsics[r"Redeemers::to_bytes$"] = enc("redeemers_bytes")
+    E.extra_intrinsics[r"PlutusList::to_set_bytes$"] = enc("datums_set_bytes")
+    E.extra_intrinsics[r"Costmdls::language_views_encoding$"] = enc("language_views")
+    def blake(E_, c, a):
+        buf = VM.deref(E_, a[0])
+        E_.trace.append(("hashed", list(buf.items) if isinstance(buf, VSeq) else None))
+        return VOpaque("digest", [], z3.Const("digest", U))
+    E.extra_intrinsics[r"(^|::)blake2b256$"] = blake
+    E.extra_intrinsics[r"ScriptDataHash as From<\[u8; 32\]>>::from$"] = lambda E_, c, a: VLazy("script_data_hash", "ScriptDataHash")
+    seen = set()
+    for has_d in (False, True):
+        def mk(has_d=has_d):
+            E.pc.append(nred.t >= 0)
+            d = VEnum("Option", "Some", [VLazy("datums", "PlutusList")]) if has_d else VEnum("Option", "None", [])
+            return [R(VLazy("redeemers", "Redeemers"), "redeemers"), R(VLazy("cost_models", "Costmdls"), "cost_models"), d]
+        for o in E.explore("hash_script_data", mk, max_paths=20):
+            if o.kind != "return":
+                ob.vc("no panic (%s %s)" % (o.kind, o.msg[:80]), o.pc, z3.BoolVal(False)); continue
+            E.enter(o)
+            h = [t for t in o.trace if t[0] == "hashed"]
+            if len(h) != 1 or h[0][1] is None:
+                ob.fail("blake2b256 is not applied exactly once to the assembled buffer"); continue
+            parts = []
+            for it in h[0][1]:
+                it = VM.deref(E, it)
+                if isinstance(it, VInt):
+                    parts.append(("byte", E.concretize(it.t)))
+                elif isinstance(it, VStruct) and it.name == "#chunk":
+                    parts.append(("chunk", it.fields[0].tag))
+                else:
+                    parts.append(("?", repr(it)))
+            sol = z3.Solver(); sol.add(*o.pc)
+            zero = sol.check(nred.t == 0) == z3.sat and sol.check(nred.t != 0) != z3.sat
+            if zero and has_d:
+                want = [("byte", 0xA0), ("chunk", "datums_set_bytes"), ("byte", 0xA0)]
+            else:
+                want = [("chunk", "redeemers_bytes")] + ([("chunk", "datums_set_bytes")] if has_d else []) + [("chunk", "language_views")]
+            seen.add((zero, has_d))
+            if parts != want:
+                ob.violation("redeemer count %s, datums %s: the hashed buffer is %s, the ledger's script data format is %s" % ("0" if zero else "> 0", "present" if has_d else "absent", parts, want))
+    if len(seen) < 4:
+        ob.fail("only the cases %s were reached" % sorted(seen))
+    ob.finish(E)
